@@ -811,7 +811,7 @@ pub fn run_search(ctx: &Ctx, focus: Focus, rule_text: &str) -> Outcome {
     out.assumptions = vec![
         "zones are valid by construction (last transition's type = what the trailer prescribes at its switch instant, by O-leap + O-rule)".into(),
         "local times within twice the zone's largest |offset| of either end of the supported range, or (DST-rule zones) in years outside i32::MIN+2..=i32::MAX-2: only 'no panic, error is OutOfRange' is asserted".into(),
-        "zones whose rule is 'overlapping' are excluded by construction (recorded finding KF-C05-OVERLAP) and counted".into(),
+        "zones whose rule is 'overlapping' are excluded by construction and counted only while known_findings.json lists KF-C05-OVERLAP (it does not since the F3 repair)".into(),
     ];
     let known = crate::known::load();
     let id = ctx.id.as_str();
